@@ -1,7 +1,7 @@
 #![no_main]
-//! Coverage-guided driver for target "bytes" of C09: the same decode + oracle as the
+//! Coverage-guided driver for target "bytes" of C17: the same decode + oracle as the
 //! proptest-driven check; a violation aborts so that libFuzzer saves the input, which is then a
-//! replay file for `bin/check C09 quick --replay <file> --target bytes`.
+//! replay file for `bin/check C17 quick --replay <file> --target bytes`.
 use libfuzzer_sys::fuzz_target;
 use std::sync::OnceLock;
 
@@ -11,7 +11,7 @@ static A: vcore::alloc::Counting = vcore::alloc::Counting;
 static PROP: OnceLock<vcore::Property> = OnceLock::new();
 
 fuzz_target!(|data: &[u8]| {
-    let p = PROP.get_or_init(c09::property);
+    let p = PROP.get_or_init(c17::property);
     let t = p.targets.iter().find(|t| t.name == "bytes").expect("target");
     vcore::fuzz_one(p.id, t, data);
 });
